@@ -66,7 +66,22 @@ pub fn bytes_to_words(bytes: &[u8]) -> &[u64] {
 ///
 /// Panics if `bytes.len()` is not a multiple of 8.
 pub fn bytes_to_words_vec(bytes: &[u8]) -> Vec<u64> {
-    bytes_to_words(bytes).to_vec()
+    if bytes.is_empty() {
+        return Vec::new();
+    }
+    assert!(
+        bytes.len() % 8 == 0,
+        "byte slice length must be a multiple of 8, got {}",
+        bytes.len()
+    );
+    // Copy word by word instead of casting the slice: the result is owned
+    // anyway, and a cast would panic on a slice that does not start on an
+    // 8-byte boundary (e.g. a sub-slice of a larger buffer). `from_ne_bytes`
+    // keeps the native-endian layout `words_to_bytes` writes.
+    bytes
+        .chunks_exact(8)
+        .map(|chunk| u64::from_ne_bytes(chunk.try_into().expect("chunks_exact(8)")))
+        .collect()
 }
 
 /// Try to read u64 words from raw bytes.
